@@ -1,0 +1,18 @@
+//go:build verif
+
+package trie
+
+// VerifHas reports whether `word` itself is marked as a word of the dictionary: the walk
+// follows exact children only, a '*' in the trie is not interpreted as a wildcard.
+// Read-only probe for the verification harness (/verif, property C14).
+func (t *HashTrie) VerifHas(word string) bool {
+	var node = &t.root
+	for _, ch := range word {
+		child, found := node.children[ch]
+		if !found {
+			return false
+		}
+		node = child
+	}
+	return node.isEnd
+}
